@@ -81,6 +81,32 @@ pub fn tokens() -> Vec<String> {
         for t in ["{mdt}", "{}", "{0}", "{{", "}}", "{pattern}", "{template}", "{items}", "{matcher}", "{index}", "$1", "$0", "%s", "%d", "~a", "~d", "~%", "~~", "#t", "#f", "\\0", "\\n", "#\\x1e", "%lf3:print:2", "%lf3:match:1", "line", "s", "d", "/", "/dev/mdt0", "w"] {
             set.insert(t.to_string());
         }
+        // templates with holes, instantiated with the numbers a generator would put there (small
+        // indexes and the extreme values of the integer types): `%lf3:print:{}` -> `%lf3:print:0`,
+        // `...:{}` -> `...:4294967295` (a sentinel built with `format!("..{}", u32::MAX)` is such a token)
+        let templates: Vec<String> = set.iter().filter(|t| t.contains('{') && t.contains('}') && t.len() > 2 && !t.starts_with('{')).cloned().collect();
+        for t in templates {
+            for v in ["0", "1", "2", "3", "255", "256", "65535", "2147483647", "4294967295", "18446744073709551615", "-1"] {
+                let mut out = String::new();
+                let mut rest = t.as_str();
+                let mut ok = false;
+                while let Some(i) = rest.find('{') {
+                    match rest[i..].find('}') {
+                        Some(j) if j <= 12 => {
+                            out.push_str(&rest[..i]);
+                            out.push_str(v);
+                            rest = &rest[i + j + 1..];
+                            ok = true;
+                        }
+                        _ => break,
+                    }
+                }
+                out.push_str(rest);
+                if ok && out.len() <= 40 {
+                    set.insert(out);
+                }
+            }
+        }
         set.into_iter().filter(|t| !t.is_empty()).collect()
     })
     .clone()
